@@ -264,8 +264,34 @@ def run_shard(shard):
                 for second in files:
                     for backup in (False, True):
                         check_multi(st, wd, kf, [first, second], backup)
+            # many files of ONE layout in one invocation (a directory of
+            # per-node files): whatever the command remembers of one file -
+            # names, places, object identities - must not leak into the next
+            many = [same_layout_doc(i, okey) for i in range(8)]
+            for count in (3, 5, 8):
+                check_multi(st, wd, kf, many[:count], False)
+            check_multi(st, wd, kf, many, True)
     st.sample({"case": label, "file": text})
     return st
+
+
+def same_layout_doc(idx, key):
+    """One of a series of files which differ only in their values."""
+    lines = ["services:"]
+    slots = []
+    for j in range(6):
+        pw = "n%02d-pw%d" % (idx, j)
+        tok = "n%02d-tok%d" % (idx, j)
+        lines.append("  - user: user%d" % j)
+        lines.append("    password: %s" % fake_eyaml.encrypt(pw, key))
+        lines.append("    tokens:")
+        lines.append("      - plain%d" % j)
+        lines.append("      - %s" % fake_eyaml.encrypt(tok, key))
+        slots.append((("services", j, "user"), "plain", "user%d" % j))
+        slots.append((("services", j, "password"), "secret", pw))
+        slots.append((("services", j, "tokens", 0), "plain", "plain%d" % j))
+        slots.append((("services", j, "tokens", 1), "secret", tok))
+    return ("node%02d" % idx, "\n".join(lines) + "\n", slots, [])
 
 
 def rotate(wd, kf, target, backup, real, oldkeys=None):
